@@ -236,6 +236,7 @@ struct Ctx {
     k_calls: u64,
     k_parses: u64,
     k_fail: u64,
+    k_budget_binop: u32,
     prim: std::collections::BTreeMap<String, u64>,
     cut_stats: std::collections::BTreeMap<String, u64>,
 }
@@ -251,6 +252,7 @@ impl Ctx {
             k_calls: 0,
             k_parses: 0,
             k_fail: 0,
+            k_budget_binop: 60,
             prim: Default::default(),
             cut_stats: Default::default(),
         }
